@@ -242,7 +242,7 @@ func c09anchor(p *Prog, r *Report) {
 		return
 	}
 	fAnchor := p.Field(HG, "Hashgraph", "AnchorBlock")
-	block := ssa.Value(fn.Params[1])
+	block := paramByType(fn, 1, "Block")
 	var actions []ssa.Instruction
 	for _, c := range callsIn(fn, named(HG+".Hashgraph.setAnchorBlock")) {
 		actions = append(actions, c)
@@ -361,7 +361,7 @@ func signRule(p *Prog, r *Report, rule string) {
 	path := p.pathAvoiding(p.roots(), sign, func(f *ssa.Function) bool { return f == commit })
 	r.Check(path == nil, rule, "signBlock:callers", p.pos(sign.Pos()), fnName(sign), "signBlock reachable only through core.commit", "signBlock reachable without commit: "+strings.Join(path, " -> "))
 	fCb := p.Field(NODE, "core", "proxyCommitCallback")
-	block := ssa.Value(commit.Params[1])
+	block := paramByType(commit, 1, "Block")
 	qApp := func(l Lit) bool {
 		v, isNil, ok := nilTest(l)
 		if !ok || !isNil {
